@@ -143,6 +143,9 @@ func (w *worker) evaluate(c caseT) {
 	prim := fs[0]
 	for _, f := range fs[1:] {
 		r.Seen("secondary_symptoms(observation)", f.Symptom)
+		if dbg := os.Getenv("C09_DEBUG_SECONDARY"); dbg != "" && dbg == f.Symptom {
+			fmt.Printf("SECONDARY %s (primary %s)\n  program: %s\n  %s\n", f.Symptom, prim.Symptom, p, f.Detail)
+		}
 	}
 	if strings.HasPrefix(prim.Symptom, "harness-") {
 		r.Inconclusive(fmt.Sprintf("case %d: %s: %s", c.Index, prim.Symptom, firstLine(prim.Detail)))
